@@ -41,6 +41,9 @@ var c02Reqs = []harness.ReqSpec{
 	{Tag: "ua", Method: "PUT", Path: "/ua", Stream: [][]byte{bytesOf('A', 3000)}, Declared: 3000},
 	{Tag: "ub", Method: "PUT", Path: "/ub", Stream: [][]byte{bytesOf('B', 1700), bytesOf('b', 1300)}, Declared: -1},
 	{Tag: "uc", Method: "POST", Path: "/uc", Body: bytesOf('C', 3000)},
+	// 14-15: fields larger than the whole HPACK table (4096): a query string and a user-agent of 5000 octets
+	{Tag: "long", Method: "GET", Path: "/long?q=" + valOfLen(5000)},
+	{Tag: "longua", Method: "GET", Path: "/longua", Headers: [][2]string{{"User-Agent", valOfLen(5000)}, {"X-L", "l"}}},
 }
 
 func bytesOf(c byte, n int) []byte {
@@ -578,7 +581,7 @@ func runC02(c *fw.Ctx) {
 	c.Family("single")
 
 	// family: concurrent requests, every answering order and frame interleaving
-	sets := [][]int{{0, 1}, {1, 2}, {3, 0}, {2, 3}, {4, 5}}
+	sets := [][]int{{0, 1}, {1, 2}, {3, 0}, {2, 3}, {4, 5}, {14, 0}, {0, 14}, {15, 1}, {1, 15}}
 	if thorough {
 		sets = append(sets, []int{0, 1, 2}, []int{3, 1, 0}, []int{5, 4, 3})
 	}
